@@ -98,3 +98,9 @@ impl<K: Copy + Ord, V: Clone> MapCollection<K, V> for MapList<K, V> {
         self.buffer.clear();
     }
 }
+#[cfg(feature = "itree_verif")]
+impl<K: Copy, V: Clone> MapList<K, V> {
+    pub fn verif_state(&self) -> Vec<(K, V)> {
+        self.buffer.iter().map(|e| (e.key, e.val.clone())).collect()
+    }
+}
